@@ -540,12 +540,17 @@ func runBuf(bufBin, dir string, args ...string) procResult { return runBufAs(-1,
 // runBufAs runs buf under another user id (uid >= 0; only possible when the harness is root): the
 // way to meet a file that cannot be opened for writing, which root never does.
 func runBufAs(uid int, bufBin, dir string, args ...string) procResult {
+	return runBufEnv(uid, nil, bufBin, dir, args...)
+}
+
+// runBufEnv: with further environment variables (NAME=value).
+func runBufEnv(uid int, env []string, bufBin, dir string, args ...string) procResult {
 	cmd := exec.Command(bufBin, args...)
 	if uid >= 0 {
 		cmd.SysProcAttr = &syscall.SysProcAttr{Credential: &syscall.Credential{Uid: uint32(uid), Gid: uint32(uid)}}
 	}
 	cmd.Dir = dir
-	cmd.Env = append(os.Environ(), "BUF_CACHE_DIR="+filepath.Join(filepath.Dir(dir), ".cache"), "HOME="+filepath.Dir(dir), "NO_COLOR=1")
+	cmd.Env = append(append(os.Environ(), "BUF_CACHE_DIR="+filepath.Join(filepath.Dir(dir), ".cache"), "HOME="+filepath.Dir(dir), "NO_COLOR=1"), env...)
 	var so, se bytes.Buffer
 	cmd.Stdout, cmd.Stderr = &so, &se
 	err := cmd.Run()
